@@ -13,7 +13,7 @@
      3. floats: [int_times_ok] -- start + duration - start reproduces the duration for
         integer-valued times (the general IEEE statement is not proved, see the end).
    The round-trip theorems [circle|spinner|hold]_line_round_trip combine them. *)
-From RM Require Import Model.EncObjCarry Proofs.EncText Proofs.EncFmt Proofs.EncFloat Proofs.EncSimple Proofs.EncObjects Proofs.FramingFacts Proofs.NumFacts.
+From RM Require Import Model.EncObjCarry Model.HitObjectSpec Proofs.EncText Proofs.EncFmt Proofs.EncFloat Proofs.EncSimple Proofs.EncObjects Proofs.FramingFacts Proofs.NumFacts Proofs.HitObjectLineFacts Proofs.EncObjTimes.
 From RM Require Import Gen.Generated.
 From Flocq Require Import BinarySingleNaN.
 From Coq Require Import ZifyBool.
@@ -311,3 +311,303 @@ Section RT.
     reflexivity.
   Qed.
 End RT.
+
+(* ---------- names, banks and flags survive ---------- *)
+
+Lemma specify_id l : specified_ok l = true -> map specify l = l.
+Proof.
+  induction l as [|s r IH]; [reflexivity|]. cbn [specified_ok forallb map]. intros H.
+  apply andb_true_iff in H. destruct H as [Hs Hr]. fold (specified_ok r) in Hr. rewrite (IH Hr). f_equal.
+  destruct s as [n b su v c bs la]. unfold specify. cbn [hs_name hs_bank hs_suffix hs_volume hs_custom hs_bank_specified hs_layered] in *.
+  apply Bool.eqb_prop in Hs. rewrite <- Hs. reflexivity.
+Qed.
+
+(* names, banks and bank-given flags of a decoded sample list survive the line *)
+Theorem reread_carry mode l : samples_image l = true ->
+  carry_samples (reread_samples mode l) = carry_samples l.
+Proof.
+  unfold samples_image. intros H. apply andb_true_iff in H. destruct H as [H1 H2].
+  rewrite (reread_carry_shape mode l H1), (specify_id l H2). reflexivity.
+Qed.
+
+
+(* ---------- SamplePoint::apply after the re-read changes nothing that is carried ---------- *)
+
+(* a sample on which SamplePoint::apply leaves name, bank and bank-given flag alone *)
+Definition settled (s : HitSampleInfo) : bool :=
+  match hs_name s with
+  | NDefault _ => hs_bank_specified s
+  | NFile _ => (hs_bank s =? sb_normal) && negb (hs_bank_specified s)
+  end.
+
+Lemma settled_apply p s : settled s = true -> carry_sample (sp_apply p s) = carry_sample s.
+Proof.
+  destruct s as [[n|f] b su v c bs la]; unfold settled, sp_apply, carry_sample;
+    cbn [hs_name hs_bank hs_suffix hs_volume hs_custom hs_bank_specified hs_layered]; intros H.
+  - subst bs. reflexivity.
+  - apply andb_true_iff in H. destruct H as [H1 H2]. apply Z.eqb_eq in H1. apply negb_true_iff in H2. subst. reflexivity.
+Qed.
+
+Lemma settled_carry s : settled (carry_sample s) = settled s.
+Proof. destruct s as [[n|f] b su v c bs la]; reflexivity. Qed.
+
+Lemma adds_shape_default T ab r : adds_shape T ab r = true -> forallb is_default_name r = true.
+Proof.
+  revert r. induction T as [|n T IH]; intros r H.
+  - destruct r; [reflexivity|discriminate].
+  - destruct r as [|s r]; [reflexivity|]. cbn [adds_shape] in H.
+    destruct (is_named n s) eqn:E.
+    + apply andb_true_iff in H. destruct H as [_ H]. cbn [forallb]. rewrite (IH r H), andb_true_r.
+      unfold is_named in E. unfold is_default_name. destruct (hs_name s); [reflexivity|discriminate].
+    + exact (IH _ H).
+Qed.
+
+Lemma shape_settled l : samples_shape l = true -> forallb settled (map specify l) = true.
+Proof.
+  destruct l as [|h r]; [discriminate|]. cbn [samples_shape]. intros H.
+  apply andb_true_iff in H. destruct H as [Hh Hr]. cbn [map forallb]. apply andb_true_intro. split.
+  - destruct h as [[n|[|c f]] b su v c0 bs la]; unfold head_shape in Hh; cbn [hs_name hs_bank] in Hh; try discriminate.
+    + reflexivity.
+    + unfold settled, specify. cbn [hs_name hs_bank hs_bank_specified is_default_name]. rewrite Hh. reflexivity.
+  - assert (Hd : forallb is_default_name r = true).
+    { destruct r as [|a r']; [reflexivity|]. apply andb_true_iff in Hr. destruct Hr as [_ Hr]. exact (adds_shape_default _ _ _ Hr). }
+    clear Hr Hh. induction r as [|s r IH]; [reflexivity|]. cbn [forallb map] in *.
+    apply andb_true_iff in Hd. destruct Hd as [H1 H2]. rewrite (IH H2), andb_true_r.
+    unfold settled, specify. cbn [hs_name hs_bank_specified]. unfold is_default_name in *. destruct (hs_name s); [reflexivity|discriminate].
+Qed.
+
+Lemma forallb_settled_carry l : forallb settled (carry_samples l) = forallb settled l.
+Proof. induction l as [|s r IH]; [reflexivity|]. cbn [carry_samples map forallb]. fold (carry_samples r). rewrite IH, settled_carry. reflexivity. Qed.
+
+Lemma settled_apply_all p l : forallb settled l = true -> carry_samples (map (sp_apply p) l) = carry_samples l.
+Proof.
+  induction l as [|s r IH]; [reflexivity|]. cbn [forallb map carry_samples]. intros H.
+  apply andb_true_iff in H. destruct H as [H1 H2]. fold (carry_samples r). fold (carry_samples (map (sp_apply p) r)).
+  rewrite (IH H2), (settled_apply p s H1). reflexivity.
+Qed.
+
+(* map level: the second decode applies some sample point [p] to the re-read list; names, banks
+   and bank-given flags are still those of the written list *)
+Theorem reread_apply_carry mode p l : samples_image l = true ->
+  carry_samples (map (sp_apply p) (reread_samples mode l)) = carry_samples l.
+Proof.
+  intros H. pose proof H as H'. unfold samples_image in H'. apply andb_true_iff in H'. destruct H' as [H1 H2].
+  assert (S : forallb settled (reread_samples mode l) = true).
+  { rewrite <- forallb_settled_carry, (reread_carry_shape mode l H1), forallb_settled_carry. exact (shape_settled l H1). }
+  rewrite (settled_apply_all p _ S). exact (reread_carry mode l H).
+Qed.
+
+(* ---------- SamplePoint::apply on the decoder's own lists: the map-level image ---------- *)
+
+(* the sample list of an object as parse_hit_objects leaves it *)
+Definition raw_samples (l : list HitSampleInfo) : Prop :=
+  exists b st, bank_info_ok b = true /\ l = convert_sound_type b st.
+
+Lemma sample_point_in c t p : sample_point_at c t = Some p -> In p (cp_sample c).
+Proof.
+  unfold sample_point_at, at_first. destruct (search sp_time (cp_sample c) t); intros H; exact (nth_error_In _ _ H).
+Qed.
+
+(* the per-object step of the map-level processing (MapLevel.process_object): if every sample
+   point has a real bank (the decoder replaces None by Normal), the processed object's sample
+   list is in [samples_image] *)
+Theorem processed_object_image dist c sm mode h h' :
+  raw_samples (h_samples h) ->
+  (forall p, In p (cp_sample c) -> bank13 (sp_bank p) = true) ->
+  process_object dist c sm mode h = Done h' ->
+  samples_image (h_samples h') = true.
+Proof.
+  intros (b & st & Hb & E) Hc H. unfold process_object in H.
+  destruct (match h_kind h with KSlider _ => _ | _ => _ end) as [[kind et]| |]; try discriminate.
+  cbn [obind] in H. inversion H; subst. cbn [h_samples]. rewrite E.
+  apply processed_samples_image; [exact Hb|].
+  unfold sample_point_or_default. destruct (sample_point_at c _) as [p|] eqn:Ep; [|reflexivity].
+  exact (Hc p (sample_point_in _ _ _ Ep)).
+Qed.
+
+
+(* ---------- the decoder image, line level ---------- *)
+
+Lemma banks_spec_ok b fields bo b' :
+  bank_info_ok b = true -> banks_spec b fields bo = Some b' -> bank_info_ok b' = true.
+Proof.
+  intros Hb H. unfold banks_spec in H.
+  destruct (nth_error fields 0) as [[|c0 f0]|]; try (inversion H; subst; exact Hb).
+  destruct (pn_i32 (c0 :: f0)) as [n|]; [|discriminate].
+  destruct (obnd (nth_error fields 1) pn_i32) as [a|]; [|discriminate].
+  change (bank_opt n) with (opt_bank n) in H. change (bank_opt a) with (opt_bank a) in H.
+  assert (G : opt_bank13 (opt_bank n) && opt_bank13 (match opt_bank a with Some x => Some x | None => opt_bank n end) = true).
+  { rewrite opt_bank_ok. pose proof (opt_bank_ok a) as Ha. destruct (opt_bank a); [exact Ha|apply opt_bank_ok]. }
+  destruct bo; [inversion H; subst; exact G|].
+  destruct (match nth_error fields 2 with Some s => pn_i32 s | None => Some (sbi_custom b) end); [|discriminate].
+  destruct (match nth_error fields 3 with Some s => omap (Z.max 0) (pn_i32 s) | None => Some (sbi_volume b) end); [|discriminate].
+  inversion H; subst. exact G.
+Qed.
+
+Lemma slider_pre_bank_ok sound rest pre :
+  parse_slider_pre sound rest = Done (Some pre) -> bank_info_ok (spre_bank pre) = true.
+Proof.
+  rewrite parse_slider_pre_spec. intros H. inversion H as [H1]. clear H. unfold slider_fields_spec in H1.
+  destruct (nth_error rest 0); [|discriminate].
+  destruct (obnd (nth_error rest 1) pn_i32); [|discriminate].
+  destruct (repeat_cap <? z); [discriminate|].
+  destruct (length_spec (nth_error rest 2)); [|discriminate].
+  destruct (match nth_error rest 5 with Some s0 => banks_spec sbi_default (split_on 58 s0) true | None => Some sbi_default end) as [bank|] eqn:E; [|discriminate].
+  destruct (node_samples_spec _ _ _ _ _); [|discriminate]. cbn [omap] in H1. inversion H1; subst. cbn [spre_bank].
+  destruct (nth_error rest 5); [exact (banks_spec_ok _ _ _ _ sbi_default_ok E)|inversion E; subst; reflexivity].
+Qed.
+
+Lemma read_extras_bank_ok o b : read_extras o sbi_default = Some b -> bank_info_ok b = true.
+Proof.
+  destruct o as [s|]; cbn [read_extras]; intros H; [exact (read_banks_ok _ _ _ _ sbi_default_ok H)|inversion H; reflexivity].
+Qed.
+
+Lemma f32_eqb_refl x : f32_eqb x x = true.
+Proof.
+  unfold f32_eqb, sf_eqb. destruct (B2SF x) as [s|s| |s m e]; try reflexivity; try (destruct s; reflexivity).
+  rewrite Bool.eqb_reflx, Pos.eqb_refl, Z.eqb_refl. reflexivity.
+Qed.
+
+(* what parse_kind can produce *)
+Lemma parse_kind_image st hd st1 kind bank :
+  parse_kind st hd = Done (st1, Some (kind, bank)) ->
+  ho_objects st1 = ho_objects st /\ kind_image kind = true /\ bank_info_ok bank = true.
+Proof.
+  unfold parse_kind. intros H.
+  destruct (has_flag (hd_type hd) hot_circle).
+  { destruct (read_extras _ _) as [b|] eqn:E; inversion H; subst. repeat split; [|exact (read_extras_bank_ok _ _ E)].
+    unfold kind_image, circle_image, forced_new_combo. cbn [ci_new_combo ci_combo_offset].
+    destruct (hd_new_combo hd); [rewrite orb_true_r; reflexivity|]. cbn [Z.eqb]. apply orb_true_r. }
+  destruct (has_flag (hd_type hd) hot_slider).
+  { destruct (parse_slider_pre (hd_sound hd) (hd_rest hd)) as [[pre|]| |] eqn:E; try discriminate.
+    destruct (convert_path_str _ _ _) as [[pb [|]]| |]; inversion H; subst.
+    repeat split. exact (slider_pre_bank_ok _ _ _ E). }
+  destruct (has_flag (hd_type hd) hot_spinner).
+  { destruct (hd_rest hd) as [|d r1]; [discriminate|]. destruct (pn_f64 d); [|discriminate].
+    destruct (read_extras _ _) as [b|] eqn:E; inversion H; subst. refine (conj eq_refl (conj _ (read_extras_bank_ok _ _ E))).
+    unfold kind_image. cbn [sp_pos]. rewrite !f32_eqb_refl. reflexivity. }
+  destruct (has_flag (hd_type hd) hot_hold); [|discriminate].
+  destruct (nonempty _) as [s|]; [|inversion H; subst; repeat split].
+  destruct (split_on 58 s) as [|e ss]; [discriminate|]. destruct (pn_f64 e); [|discriminate].
+  destruct (read_custom_sample_banks sbi_default ss false) as [b|] eqn:E; inversion H; subst.
+  repeat split. exact (read_banks_ok _ _ _ _ sbi_default_ok E).
+Qed.
+
+Lemma parse_kind_rejected_objects st hd st1 :
+  parse_kind st hd = Done (st1, None) -> ho_objects st1 = ho_objects st.
+Proof.
+  unfold parse_kind. intros H.
+  destruct (has_flag (hd_type hd) hot_circle).
+  { destruct (read_extras _ _); inversion H; subst; reflexivity. }
+  destruct (has_flag (hd_type hd) hot_slider).
+  { destruct (parse_slider_pre (hd_sound hd) (hd_rest hd)) as [[pre|]| |]; try discriminate; [|inversion H; subst; reflexivity].
+    destruct (convert_path_str _ _ _) as [[pb [|]]| |]; inversion H; subst. reflexivity. }
+  destruct (has_flag (hd_type hd) hot_spinner).
+  { destruct (hd_rest hd) as [|d r1]; [inversion H; subst; reflexivity|]. destruct (pn_f64 d); [|inversion H; subst; reflexivity].
+    destruct (read_extras _ _); inversion H; subst; reflexivity. }
+  destruct (has_flag (hd_type hd) hot_hold); [|inversion H; subst; reflexivity].
+  destruct (nonempty _) as [s|]; [|discriminate].
+  destruct (split_on 58 s) as [|e ss]; [inversion H; subst; reflexivity|]. destruct (pn_f64 e); [|inversion H; subst; reflexivity].
+  destruct (read_custom_sample_banks sbi_default ss false); inversion H; subst; reflexivity.
+Qed.
+
+(* the decoder image, line level: an invariant of parse_hit_objects for EVERY line (slider lines
+   included): every object in the state has a sample list of the decoder's shape, circles carry a
+   combo offset only next to the new-combo flag, spinners sit at the fixed centre *)
+Theorem parse_line_image st line st' r :
+  Forall (fun h => line_image h = true) (ho_objects st) ->
+  parse_hit_objects st line = Done (st', r) ->
+  Forall (fun h => line_image h = true) (ho_objects st').
+Proof.
+  intros Hst H. unfold parse_hit_objects in H.
+  destruct (parse_header line) as [hd|]; [|inversion H; subst; exact Hst].
+  destruct (parse_kind st hd) as [[st1 [[kind bank]|]]| |] eqn:E; try discriminate.
+  - destruct (parse_kind_image _ _ _ _ _ E) as (Ho & Hk & Hb). inversion H; subst. cbn [ho_objects].
+    rewrite Ho. apply Forall_app. split; [exact Hst|]. constructor; [|constructor].
+    unfold line_image. cbn [h_kind h_samples]. rewrite Hk, (convert_samples_shape _ _ Hb). reflexivity.
+  - inversion H; subst. rewrite (parse_kind_rejected_objects _ _ _ E). exact Hst.
+Qed.
+
+
+(* ---------- the round trip ---------- *)
+
+Section RT2.
+  Variables (fmt_f64 : F64 -> str) (fmt_f32 : F32 -> str) (fmt_int : Z -> str).
+  Hypothesis Hfmt : fmt_ok fmt_f64 fmt_f32 fmt_int.
+  Notation rline := (render fmt_f64 fmt_f32 fmt_int).
+
+  (* the three kinds at once: the exact re-read *)
+  Theorem object_line_reread dist mode h l :
+    object_ok h = true -> object_line dist mode h = Done l ->
+    forall st, parse_hit_objects st (rline l) = Done (push st (reread_object st mode h), Ok).
+  Proof.
+    intros Hok Hl. destruct (h_kind h) as [c|s|s|hd] eqn:Hk.
+    - exact (circle_line_reread _ _ _ Hfmt dist mode h c l Hk Hok Hl).
+    - unfold object_ok in Hok. rewrite Hk, andb_false_r in Hok. discriminate.
+    - exact (spinner_line_reread _ _ _ Hfmt dist mode h s l Hk Hok Hl).
+    - exact (hold_line_reread _ _ _ Hfmt dist mode h hd l Hk Hok Hl).
+  Qed.
+
+  Theorem circle_line_round_trip dist mode h c l :
+    h_kind h = KCircle c -> object_ok h = true -> samples_image (h_samples h) = true ->
+    object_line dist mode h = Done l ->
+    forall st, exists st' o,
+      parse_hit_objects st (rline l) = Done (st', Ok) /\ st' = push st o /\
+      ho_objects st' = ho_objects st ++ [o] /\
+      carry_object o =
+        carry_object (mkHObj (h_start h)
+                             (KCircle (mkCircle (ci_pos c) (forced_new_combo st (ci_new_combo c))
+                                                (if ci_new_combo c then ci_combo_offset c else 0)))
+                             (h_samples h)) /\
+      (combo_kept st c = true -> carry_object o = carry_object h).
+  Proof.
+    intros Hk Hok Hs Hl st. exists (push st (reread_object st mode h)), (reread_object st mode h).
+    split; [exact (circle_line_reread _ _ _ Hfmt dist mode h c l Hk Hok Hl st)|].
+    split; [reflexivity|]. split; [reflexivity|].
+    assert (E : carry_object (reread_object st mode h) =
+                carry_object (mkHObj (h_start h)
+                             (KCircle (mkCircle (ci_pos c) (forced_new_combo st (ci_new_combo c))
+                                                (if ci_new_combo c then ci_combo_offset c else 0)))
+                             (h_samples h))).
+    { unfold carry_object, reread_object, reread_kind. rewrite Hk. cbn [h_start h_kind h_samples carry_kind].
+      rewrite (reread_carry mode _ Hs). reflexivity. }
+    split; [exact E|]. intros Hc. rewrite E. unfold carry_object. cbn [h_start h_kind h_samples]. rewrite Hk.
+    unfold combo_kept, circle_image in Hc. apply andb_true_iff in Hc. destruct Hc as [H1 H2].
+    destruct c as [p nc off]. cbn [ci_new_combo ci_combo_offset ci_pos] in *. unfold forced_new_combo.
+    destruct nc.
+    - rewrite orb_true_r. reflexivity.
+    - cbn [orb] in H1, H2. apply negb_true_iff in H1. rewrite H1. apply Z.eqb_eq in H2. subst off. reflexivity.
+  Qed.
+
+  Theorem spinner_line_round_trip dist mode h s l :
+    h_kind h = KSpinner s -> object_ok h = true -> samples_image (h_samples h) = true ->
+    spinner_time_ok (h_start h) (sp_duration s) ->
+    object_line dist mode h = Done l ->
+    forall st, exists st' o,
+      parse_hit_objects st (rline l) = Done (st', Ok) /\ st' = push st o /\
+      ho_objects st' = ho_objects st ++ [o] /\
+      carry_object o = carry_object h.
+  Proof.
+    intros Hk Hok Hs Ht Hl st. exists (push st (reread_object st mode h)), (reread_object st mode h).
+    split; [exact (spinner_line_reread _ _ _ Hfmt dist mode h s l Hk Hok Hl st)|].
+    split; [reflexivity|]. split; [reflexivity|].
+    unfold carry_object, reread_object, reread_kind. rewrite Hk. cbn [h_start h_kind h_samples carry_kind sp_duration sp_new_combo].
+    unfold spinner_time_ok in Ht. rewrite Ht, (reread_carry mode _ Hs). reflexivity.
+  Qed.
+
+  Theorem hold_line_round_trip dist mode h hd l :
+    h_kind h = KHold hd -> object_ok h = true -> samples_image (h_samples h) = true ->
+    hold_time_ok (h_start h) (hd_duration hd) ->
+    object_line dist mode h = Done l ->
+    forall st, exists st' o,
+      parse_hit_objects st (rline l) = Done (st', Ok) /\ st' = push st o /\
+      ho_objects st' = ho_objects st ++ [o] /\
+      carry_object o = carry_object h.
+  Proof.
+    intros Hk Hok Hs Ht Hl st. exists (push st (reread_object st mode h)), (reread_object st mode h).
+    split; [exact (hold_line_reread _ _ _ Hfmt dist mode h hd l Hk Hok Hl st)|].
+    split; [reflexivity|]. split; [reflexivity|].
+    unfold carry_object, reread_object, reread_kind. rewrite Hk. cbn [h_start h_kind h_samples carry_kind].
+    unfold hold_time_ok in Ht. rewrite Ht, (reread_carry mode _ Hs). destruct hd. reflexivity.
+  Qed.
+End RT2.
